@@ -271,6 +271,9 @@ func snapshotTree(root string, withMtime bool) map[string]string {
 			return nil
 		}
 		d := fmt.Sprintf("%v %o", fi.Mode().Type(), fi.Mode().Perm())
+		if st, ok := fi.Sys().(*syscall.Stat_t); ok && (st.Uid != 0 || st.Gid != 0) {
+			d += fmt.Sprintf(" owner=%d:%d", st.Uid, st.Gid)
+		}
 		switch {
 		case fi.Mode()&os.ModeSymlink != 0:
 			t, _ := os.Readlink(p)
